@@ -67,6 +67,11 @@ class Family:
                     nontriv.add(hashlib.sha1(cases.get(cid, cid).encode()).hexdigest())
         res["nontrivial"] = len(nontriv)
         res["hist"] = {"result_class": hist}
+        if pid == "C18":
+            for (cid, k), line in impl.items():
+                if line.startswith("5 "):
+                    res["oracle_fail"].append(dict(oracle="addressable", cls="an identifier below the dart count cannot be read in a registered storage",
+                                                   case=cid, step=k, case_line=cases.get(cid, ""), op=ops.get((cid, k)), post=line[:300]))
         # ---- oracles on implementation observations
         for (entry, oname, cls_names) in self.oracles:
             lines = []
